@@ -220,9 +220,9 @@ def coq_sop(op):
     if k == 2:
         return "OUnsub %d %d" % (op[1], op[2])
     if k == 3:
-        return "OPub %d (0, %d)" % (op[1], op[2])
+        return "OPub %d %d" % (op[1], op[2])
     if k == 4:
-        return "OBcast (0, %d) [%s]" % (op[1], "; ".join(str(t) for t in op[2:]))
+        return "OBcast %d [%s]" % (op[1], "; ".join(str(t) for t in op[2:]))
     if k == 5:
         return "ORemove %d" % op[1]
     if k == 6:
@@ -236,9 +236,9 @@ def coq_sop(op):
 
 def coq_sobs(op, o):
     if op[0] == 9:
-        res = "[(%d, (0, 0))]" % o["result"][0][0]
+        res = "[(%d, 0)]" % o["result"][0][0]
     else:
-        res = "[" + "; ".join("(%d, (0, %d))" % (m[0], m[1]) for m in (o["result"] or [])) + "]"
+        res = "[" + "; ".join("(%d, %d)" % (m[0], m[1]) for m in (o["result"] or [])) + "]"
     act = "[" + "; ".join("true" if a else "false" for a in o["active"]) + "]"
     tops = "[" + "; ".join("[" + "; ".join(str(t) for t in ts) + "]" for ts in o["topics"]) + "]"
     cnt = "[" + "; ".join(str(c) for c in o["counts"]) + "]"
